@@ -389,6 +389,10 @@ pub struct PrintOpts {
     /// redundant parentheses around the whole value of every definition, assignment and `ret`
     /// (if- and case-expressions in those positions are otherwise written bare)
     pub paren_values: bool,
+    /// a comment after every separator that `break_brackets` / `break_infix` put at a line end
+    pub comment_in_breaks: bool,
+    /// redundant parentheses around the callee of paren-style and arrow-style calls: `(f)(a)`, `a -> (f)(b)`
+    pub paren_callees: bool,
     /// per-site choice between a trailing expression and `ret e`: bit k decides tail site k (print order; a site is
     /// the last expression statement of a function body unless it is an if / case expression, whose branch tails are
     /// values of the if, not trailing expressions of the function); sites beyond the mask follow `explicit_ret`.
@@ -429,6 +433,16 @@ impl Printer {
         let r = f();
         self.depth.set(self.depth.get() - 1);
         r
+    }
+
+    /// line-end separator inside brackets (`,` newline), optionally followed by a comment
+    fn break_sep(&self) -> &'static str {
+        if self.opts.comment_in_breaks { ", // c\n" } else { ",\n" }
+    }
+
+    fn callee(&self, f: &Expr) -> String {
+        let t = self.expr(f, 8);
+        if self.opts.paren_callees && !t.starts_with('(') { format!("({})", t) } else { t }
     }
 
     /// separator before an infix operator
@@ -791,9 +805,9 @@ impl Printer {
                 let style = if args.is_empty() && matches!(style, CallStyle::Arrow | CallStyle::ArrowPrime) { CallStyle::Paren } else { *style };
                 match style {
                     CallStyle::Paren => {
-                        let callee = self.expr(f, 8);
+                        let callee = self.callee(f);
                         if self.opts.break_brackets && !args.is_empty() {
-                            let a = self.bracketed(|| args.iter().map(|x| self.expr(x, 0)).collect::<Vec<_>>().join(",\n"));
+                            let a = self.bracketed(|| args.iter().map(|x| self.expr(x, 0)).collect::<Vec<_>>().join(self.break_sep()));
                             (format!("{}(\n{}\n)", callee, a), 8)
                         } else {
                             let a = self.bracketed(|| args.iter().map(|x| self.expr(x, 0)).collect::<Vec<_>>().join(", "));
@@ -802,7 +816,7 @@ impl Printer {
                     }
                     CallStyle::Prime => {
                         // a prime call absorbs everything up to the end of the line: always wrapped
-                        let sep = if self.opts.break_brackets { ",\n" } else { ", " };
+                        let sep = if self.opts.break_brackets { self.break_sep() } else { ", " };
                         let callee = self.bracketed(|| self.expr(f, 8));
                         let a = self.bracketed(|| self.prime_args(args, sep));
                         if a.is_empty() {
@@ -815,12 +829,12 @@ impl Printer {
                     CallStyle::Arrow => {
                         self.bracketed(|| {
                             let a = args[1..].iter().map(|x| self.expr(x, 0)).collect::<Vec<_>>().join(", ");
-                            (format!("({}{}-> {}({}))", self.expr(&args[0], 8), self.infix_gap(), self.expr(f, 8), a), 9)
+                            (format!("({}{}-> {}({}))", self.expr(&args[0], 8), self.infix_gap(), self.callee(f), a), 9)
                         })
                     }
                     CallStyle::ArrowPrime => {
                         self.bracketed(|| {
-                            let sep = if self.opts.break_brackets { ",\n" } else { ", " };
+                            let sep = if self.opts.break_brackets { self.break_sep() } else { ", " };
                             let a = self.prime_args(&args[1..], sep);
                             if a.is_empty() {
                                 (format!("({}{}-> {}')", self.expr(&args[0], 8), self.infix_gap(), self.expr(f, 8)), 9)
@@ -832,7 +846,7 @@ impl Printer {
                 }
             }
             Expr::Tuple(xs) => {
-                let sep = if self.opts.break_brackets && xs.len() > 1 { ",\n" } else { ", " };
+                let sep = if self.opts.break_brackets && xs.len() > 1 { self.break_sep() } else { ", " };
                 let a = self.bracketed(|| xs.iter().map(|x| self.expr(x, 0)).collect::<Vec<_>>().join(sep));
                 if xs.len() == 1 {
                     (format!("({},)", a), 9)
@@ -844,7 +858,7 @@ impl Printer {
             }
             Expr::List(xs) => {
                 if self.opts.break_brackets && !xs.is_empty() {
-                    (format!("[\n{},\n]", self.bracketed(|| xs.iter().map(|x| self.expr(x, 0)).collect::<Vec<_>>().join(",\n"))), 9)
+                    (format!("[\n{},\n]", self.bracketed(|| xs.iter().map(|x| self.expr(x, 0)).collect::<Vec<_>>().join(self.break_sep()))), 9)
                 } else {
                     (format!("[{}]", self.bracketed(|| xs.iter().map(|x| self.expr(x, 0)).collect::<Vec<_>>().join(", "))), 9)
                 }
